@@ -237,8 +237,8 @@ def plainLoop (indent : Int) (startMark : Marker) : Nat → PlAcc → S PlAcc
         if s.flowLevel == 0 && (s.mark.col : Int) < indent then pure a
         else plainLoop indent startMark fuel a
 
-def scanPlainScalar : S Token := do
-  unrollNonBlockIndents
+/-- `scan_plain_scalar` after the non-block indents have been unrolled -/
+def scanPlainScalarBody : S Token := do
   let s ← getS
   let indent := s.indent + 1
   let startMark := s.mark
@@ -250,6 +250,10 @@ def scanPlainScalar : S Token := do
     if s.leadingWhitespace then allowSimpleKey
     if a.str.isEmpty then err startMark "unexpected end of plain scalar"
     else pure ⟨⟨startMark, a.endMark⟩, .scalar .plain a.str⟩
+
+def scanPlainScalar : S Token := do
+  unrollNonBlockIndents
+  scanPlainScalarBody
 
 def fetchPlainScalar : S Unit := do
   saveSimpleKey
@@ -265,7 +269,9 @@ def fetchKey : S Unit := do
   if s.flowLevel == 0 then
     if !s.simpleKeyAllowed then err s.mark "mapping keys are not allowed in this context"
     else rollIndent startMark.col none .blockMappingStart startMark
-  else modS fun s => { s with flowMappingStarted := true }
+  else modS fun s => match s.implStates with
+    | .possible :: r => { s with implStates := .explicitKey :: r }
+    | _ => s
   removeSimpleKey
   if s.flowLevel == 0 then allowSimpleKey else disallowSimpleKey
   skipNonBlank
@@ -319,7 +325,7 @@ def fetchValue : S Unit := do
     let startMark := s.mark
     let isImplicit := (match s.implStates with
       | .possible :: _ | .inside :: _ => true
-      | _ => false) && !s.flowMappingStarted
+      | _ => false)
     (if isImplicit then modS fun s => { s with implStates := .inside :: s.implStates.tail } else pure ())
     skipNonBlank
     let tabErr ← valueTabCheck
